@@ -6,6 +6,21 @@ floors                     = minimal frequency (fraction <1) or count (>=1) of a
 
 SPECS = {}
 
+SETUP_CMD = ("cd /verif/harness && GOFLAGS=-mod=mod GOPROXY=off GOSUMDB=off GOTOOLCHAIN=local "
+             "go build ./internal/... ; true")
+
+HOOKS = {
+    "guard": "verif",
+    "enable": ("Go build tag: ./check passes -tags verif to every `go test -c` / `go build` of the harness module, which "
+               "compiles /repo through a replace directive"),
+    "baseline_off_cmd": "cd /repo && go test -vet=off -count=1 -timeout 25m ./...",
+    "source_commits": [],
+    "add_only": True,
+}
+
+NOTES = ("One driver (./check <ID> --tier quick|thorough | --replay <file>), one Go harness module. Every check rebuilds its "
+         "test binary from /repo's working tree. See DESIGN.md.")
+
 SPECS["C01"] = {
     "pkg": "c01",
     "tests": [
@@ -19,6 +34,14 @@ SPECS["C01"] = {
              "or >= 2 step levels); distinct = distinct config tuples (hash of the case)."),
     "floors": {"TestProfile/fractional_duration": 0.25, "TestProfile/line_decreasing": 0.05,
                "TestProfile/zero_endpoint": 0.05, "TestProfile/via_config": 0.3, "TestProfile/step_multi_level": 0.02},
+    "manifest": {
+        "technique": "property-based testing (rapid) against an exact closed-form integral oracle (math/big)",
+        "text": ("Generated const/line/step/once configurations (fractional durations, zero rates, both construction paths) are "
+                 "drained completely; every token instant, the token count, Left() and the finish time are compared with the "
+                 "exact integral of the configured rate. Random search with shrinking; no exhaustiveness claimed."),
+        "note": ("Trusts math/big and the stated float tolerances (count off by one only when the exact integral is within 1e-9 "
+                 "relative of an integer; |F(t_k)-k| <= rate*2ns + 1e-9*max(1,k))."),
+    },
     "assumptions": ["float tolerance: a token count one off the exact floor is accepted only when the exact integral is within "
                     "1e-9 (relative) of an integer; token instants are judged forward, |F(t_k)-k| <= rate*2ns + 1e-9*max(1,k)",
                     "step levels within 1e-9 of `to` are accepted either way when `from` is not an integer"],
